@@ -313,6 +313,33 @@ u_setup(uint64_t idx, void *arg)
                     }
                     vh_sig(0x18500000u ^ (size << 12) ^ (used << 8) ^ (off << 4) ^ (unsigned)null);
                 }
+    /* the same with values at the top of size_t (differences that wrap around) */
+    {
+        static const size_t ext[] = { 0, 1, 3, 8, 9, (size_t)-1, (size_t)-2, (size_t)-4, (size_t)-5, (size_t)-8, (size_t)-9,
+                                      ((size_t)-1) / 2, ((size_t)-1) / 2 + 1, ((size_t)-1) / 2 + 2, (size_t)1 << 32, ((size_t)1 << 32) + 3 };
+        const size_t ne = sizeof ext / sizeof ext[0];
+        for (size_t si = 0; si < ne; si++)
+            for (size_t ui = 0; ui < ne; ui++)
+                for (size_t oi = 0; oi < ne; oi++) {
+                    size_t size = ext[si], used = ext[ui], off = ext[oi];
+                    VH_CASE4(size, used, off, 2);
+                    memset(&b, 0x77, sizeof b);
+                    ByteBuffer before = b;
+                    int rc = byte_buffer_set(&b, mem, size, used, off);
+                    int valid = size > 0 && used <= size && off <= used;
+                    if (valid) {
+                        if (rc != 0 || b.data != mem || b.size != size || b.used != used || b.offset != off)
+                            vh_fail("set-valid", "op=set values=extreme", "size=%zx used=%zx offset=%zx rc=%d", size, used, off, rc);
+                    } else {
+                        if (rc >= 0)
+                            vh_fail("set-invalid-accepted", "op=set values=extreme", "size=%zx used=%zx offset=%zx rc=%d", size, used,
+                                    off, rc);
+                        if (memcmp(&b, &before, sizeof b) != 0)
+                            vh_fail("set-invalid-changes", "op=set values=extreme", "size=%zx used=%zx offset=%zx", size, used, off);
+                    }
+                    VH_COUNT("set-up with values at the extremes of size_t");
+                }
+    }
     for (size_t size = 0; size <= 6; size++)
         for (int null = 0; null < 2; null++) {
             int rc = byte_buffer_use(&b, null ? NULL : mem, size);
@@ -421,7 +448,7 @@ harness_run(void)
                                  "consume_at_most full", "rewind with consumed prefix and unread rest",
                                  "rewind with everything consumed", "rewind at offset 0", "reset", "clear", "repeat",
                                  "set accepted", "set refused", "use/space checked",
-                                 "history: buffer size above 254" };
+                                 "history: buffer size above 254", "set-up with values at the extremes of size_t" };
     for (size_t i = 0; i < sizeof req / sizeof req[0]; i++)
         vh_require(req[i]);
 }
